@@ -233,6 +233,9 @@ def execute(plan):
         if a.inputs_before != a.inputs_after:
             add("input_modified", {"where": tag, "restart": a.checkpoint is not None})
             return False
+        if a.globals_changed:
+            add("process_wide_setting_changed", {"where": tag, "settings": a.globals_changed})
+            return False
         return True
 
     # ---- solo references
@@ -396,6 +399,8 @@ def execute(plan):
         stats["activations"] += 1
         stats["fault.log_fail"] += v.fired["log_fail"]
         stats["or.logging_variant"] += 1
+        if v.globals_changed:
+            add("process_wide_setting_changed", {"where": "iprint=%s logger=%s" % (ip, lg), "settings": v.globals_changed})
         if v.result is None and v.exc is not None and "read-only" not in str(v.exc):
             add("logging_raised", {"iprint": ip, "logger": lg, "exception": repr(v.exc)[:200]})
         elif _dg(v) != ref[0]:
